@@ -181,6 +181,8 @@ def report(ctx, res):
         if (t["model"] == "freespace" and e["op"] == "SetFc" and c == "parameter fc" and e["out"] == "raise"
                 and e["post"].get("fc") == e["arg"]):
             ctx.finding(c13.FID_FC, what, case)
+        elif c == "law QueryPure" and c13.TAG_I8 in str(e.get("why", {}).get("QueryPure", "")):
+            ctx.finding(c13.FID_I8, what, case)
         else:
             ctx.violation(what, case)
     ctx.notes["traces_recorded"] = len(traces)
